@@ -620,6 +620,12 @@ impl Check for C15 {
     }
 
     fn post(&mut self, ctx: &Ctx, merged: &mut Stats) {
+        if ctx.flavour == crate::sup::Flavour::Rel {
+            // both tiers: the interpreter-sized workload natively under valgrind memcheck
+            let mctx = Ctx { seed: ctx.seed, tier: ctx.tier, flavour: crate::sup::Flavour::Miri };
+            let n = self.fams(&mctx).total();
+            crate::sup::run_valgrind_inproc("C15", ctx, n, 8, merged);
+        }
         // provenance of the int-to-pointer tagging, alignment, uninitialised reads, leaks: the whole check again under Miri
         if ctx.flavour == crate::sup::Flavour::Rel && ctx.tier == crate::sup::Tier::Thorough {
             let mctx = Ctx { seed: ctx.seed, tier: ctx.tier, flavour: crate::sup::Flavour::Miri };
